@@ -145,6 +145,7 @@ def run(ck):
     if not quick:
         ck.mc("MC_ScalarMul", "MC_ScalarMul_29_all.cfg", note="order-40 group, pair phase from every (point, scalar)", workers=12, timeout=3000)
         ck.mc("MC_ScalarMul", "MC_ScalarMul_101.cfg", note="order-88 group", workers=12, timeout=3000)
+    ck.apalache("AP_Recode16", 65, "radix-16 recoding: reconstruction, digit ranges, top digit <= 8 for ALL scalars below 2^255")
     nmax = 191 if quick else 801
     if quick:
         specs = [("s64", True), ("s64", False), ("v2", True), ("v2", False)]
